@@ -1630,7 +1630,7 @@ var rStateFlags = &Rule{
 
 var rPayloadDecoder = &Rule{
 	Name: "R-PAYLOAD-DECODER",
-	Doc: "a payload that is sent is a payload that is read: every type key with a registered encoder that returns a non-nil protobuf payload also has a registered decoder. An encoder-only key is legitimate when nothing but the message and the safe details travel (the stack-carrying types arrive as opaque values by design); a key that sends a payload which no decoder ever reads loses, from the SECOND hop on, whatever that payload carries - the first hop may rebuild the value through another key's decoder (a foreign-platform errno becomes an OpaqueErrno), but re-encoding it files the payload under a key nobody decodes",
+	Doc:  "a payload that is sent is a payload that is read: every type key with a registered encoder that returns a non-nil protobuf payload also has a registered decoder. An encoder-only key is legitimate when nothing but the message and the safe details travel (the stack-carrying types arrive as opaque values by design); a key that sends a payload which no decoder ever reads loses, from the SECOND hop on, whatever that payload carries - the first hop may rebuild the value through another key's decoder (a foreign-platform errno becomes an OpaqueErrno), but re-encoding it files the payload under a key nobody decodes",
 	Run: func(c *core.Ctx) {
 		n := 0
 		for _, cp := range codecPairs(c) {
@@ -1719,7 +1719,7 @@ var rJoinNode = &Rule{
 
 var rStackWhole = &Rule{
 	Name: "R-STACK-WHOLE",
-	Doc: "the printed stack that travels is the whole stack: in (*withstack.withStack).SafeDetails the value formatted into the first safe detail is the result of the receiver's StackTrace() itself - not a slice of it. GetReportableStackTrace converts the full StackTrace() of a local error but re-parses the printed form after a hop, so a truncated printout makes the reportable frames differ before and after transfer",
+	Doc:  "the printed stack that travels is the whole stack: in (*withstack.withStack).SafeDetails the value formatted into the first safe detail is the result of the receiver's StackTrace() itself - not a slice of it. GetReportableStackTrace converts the full StackTrace() of a local error but re-parses the printed form after a hop, so a truncated printout makes the reportable frames differ before and after transfer",
 	Run: func(c *core.Ctx) {
 		p := c.P
 		ws := p.Named("withstack", "withStack")
@@ -1773,7 +1773,7 @@ var rStackWhole = &Rule{
 
 var rIndexFound = &Rule{
 	Name: "R-INDEX-FOUND",
-	Doc: "a search result is used exactly when something was found: wherever hand-written code cuts a string at the position returned by strings.Index / IndexByte / IndexRune / LastIndex* (the result is a bound of a slice expression of the searched string), the cut is guarded by the 'found' test of that result - r >= 0, r != -1, r > -1, or the negation of r == -1 / r < 0 - and not by r > 0 (or r >= 1), which treats a match at position 0 as 'not found' (a text that starts with the separator is then not cut at all)",
+	Doc:  "a search result is used exactly when something was found: wherever hand-written code cuts a string at the position returned by strings.Index / IndexByte / IndexRune / LastIndex* (the result is a bound of a slice expression of the searched string), the cut is guarded by the 'found' test of that result - r >= 0, r != -1, r > -1, or the negation of r == -1 / r < 0 - and not by r > 0 (or r >= 1), which treats a match at position 0 as 'not found' (a text that starts with the separator is then not cut at all)",
 	Run: func(c *core.Ctx) {
 		n := 0
 		for _, fn := range c.P.HandFuncs() {
@@ -1848,7 +1848,7 @@ var rIndexFound = &Rule{
 
 var rFormatStored = &Rule{
 	Name: "R-FORMAT-STORED",
-	Doc: "a format string is always formatted: in every hand-written function with a (format string, args ...interface{}) tail, the format parameter itself is never stored into a struct field and never passed to a module function in a position that is not a format parameter. A shortcut for 'no arguments' stores the unformatted text - \"80%%\" stays \"80%%\" - so the ...f variant disagrees with the plain variant for the same text (hints are no longer de-duplicated, details carry raw verbs)",
+	Doc:  "a format string is always formatted: in every hand-written function with a (format string, args ...interface{}) tail, the format parameter itself is never stored into a struct field and never passed to a module function in a position that is not a format parameter. A shortcut for 'no arguments' stores the unformatted text - \"80%%\" stays \"80%%\" - so the ...f variant disagrees with the plain variant for the same text (hints are no longer de-duplicated, details carry raw verbs)",
 	Run: func(c *core.Ctx) {
 		n := 0
 		for _, fn := range c.P.HandFuncs() {
@@ -1928,7 +1928,7 @@ var rFormatStored = &Rule{
 
 var rGenericPath = &Rule{
 	Name: "R-GENERIC-PATH",
-	Doc: "types without an encoder of their own travel unaltered: in errbase.encodeLeaf and encodeWrapper every value stored into the outgoing ReportablePayload is (a) the second result of the registered encoder, (b) the result of err.SafeDetails() itself, or (c) part of the details an opaque value stored when it was received - never a transformed copy. The decoders of such types (telemetry keys, domains, issue links, …) rebuild the annotation from exactly these strings, so escaping, trimming or truncating them on the way out changes the annotation after the first hop",
+	Doc:  "types without an encoder of their own travel unaltered: in errbase.encodeLeaf and encodeWrapper every value stored into the outgoing ReportablePayload is (a) the second result of the registered encoder, (b) the result of err.SafeDetails() itself, or (c) part of the details an opaque value stored when it was received - never a transformed copy. The decoders of such types (telemetry keys, domains, issue links, …) rebuild the annotation from exactly these strings, so escaping, trimming or truncating them on the way out changes the annotation after the first hop",
 	Run: func(c *core.Ctx) {
 		p := c.P
 		n := 0
@@ -1975,7 +1975,7 @@ var rGenericPath = &Rule{
 
 var rWriteFaithful = &Rule{
 	Name: "R-WRITE-FAITHFUL",
-	Doc: "the formatter state's Write passes bytes through: in (*errbase.state).Write the only byte value the input is compared with is '\\n' (the one character the state machine re-lays out), and nothing already buffered is taken back (no Truncate / Reset / Next on the buffers). The text reaching Write has already been escaped and enclosed by redact for redactable output and is the text Error() returns for plain output: dropping or re-interpreting any other byte (a carriage return, say) makes %v differ from Error(), makes texts differ between a node that renders itself and one that is re-assembled after a hop, and can even re-assemble a redaction marker out of bytes that redact had kept apart",
+	Doc:  "the formatter state's Write passes bytes through: in (*errbase.state).Write the only byte value the input is compared with is '\\n' (the one character the state machine re-lays out), and nothing already buffered is taken back (no Truncate / Reset / Next on the buffers). The text reaching Write has already been escaped and enclosed by redact for redactable output and is the text Error() returns for plain output: dropping or re-interpreting any other byte (a carriage return, say) makes %v differ from Error(), makes texts differ between a node that renders itself and one that is re-assembled after a hop, and can even re-assemble a redaction marker out of bytes that redact had kept apart",
 	Run: func(c *core.Ctx) {
 		p := c.P
 		st := p.Named("errbase", "state")
@@ -2055,7 +2055,7 @@ var rWriteFaithful = &Rule{
 
 var rPbNilPtr = &Rule{
 	Name: "R-PB-NILPTR",
-	Doc: "an absent sub-message is not dereferenced: wherever hand-written code reads a member THROUGH a pointer-typed field of a received protobuf message (x.Details.FullDetails.TypeUrl - FullDetails is nil when the sender attached no payload), the access is dominated by a non-nil test of that very field. (Calling a generated Get* accessor on the nil pointer is fine - they are nil-safe - and passing the pointer on is not a dereference.)",
+	Doc:  "an absent sub-message is not dereferenced: wherever hand-written code reads a member THROUGH a pointer-typed field of a received protobuf message (x.Details.FullDetails.TypeUrl - FullDetails is nil when the sender attached no payload), the access is dominated by a non-nil test of that very field. (Calling a generated Get* accessor on the nil pointer is fine - they are nil-safe - and passing the pointer on is not a dereference.)",
 	Run: func(c *core.Ctx) {
 		n := 0
 		for _, fn := range c.P.HandFuncs() {
@@ -2115,7 +2115,7 @@ var rPbNilPtr = &Rule{
 
 var rIsMethod = &Rule{
 	Name: "R-IS-METHOD",
-	Doc: "a layer's own Is method is always asked: in markers.Is and markers.IsAny the probe of the current layer's Is(error) bool method (tryDelegateToIsMethod) happens for every (layer, reference) pair - it is not control-dependent on the comparability of the reference (or on anything else computed from the reference's type). Is and IsAny are siblings: a layer that 'says so through its own Is method' must be heard by both, for comparable sentinels as well",
+	Doc:  "a layer's own Is method is always asked: in markers.Is and markers.IsAny the probe of the current layer's Is(error) bool method (tryDelegateToIsMethod) happens for every (layer, reference) pair - it is not control-dependent on the comparability of the reference (or on anything else computed from the reference's type). Is and IsAny are siblings: a layer that 'says so through its own Is method' must be heard by both, for comparable sentinels as well",
 	Run: func(c *core.Ctx) {
 		p := c.P
 		n := 0
@@ -2188,7 +2188,7 @@ func dependsOnCall(v ssa.Value, name string, seen map[ssa.Value]bool, d int) boo
 
 var rAsTarget = &Rule{
 	Name: "R-AS-TARGET",
-	Doc: "errutil.As validates its target like the standard library: the target's type must be a pointer (Kind() == reflect.Ptr tested on the target's own type), and the 'must be an interface or implement error' test applies Kind() != reflect.Interface and Implements(errorType) to one and the same reflect.Type - the pointer's ELEMENT type, the same value later used for AssignableTo. Testing the kind of the pointer type instead makes the interface exemption unreachable: As panics for interface targets that do not embed error, where errors.As succeeds or returns false",
+	Doc:  "errutil.As validates its target like the standard library: the target's type must be a pointer (Kind() == reflect.Ptr tested on the target's own type), and the 'must be an interface or implement error' test applies Kind() != reflect.Interface and Implements(errorType) to one and the same reflect.Type - the pointer's ELEMENT type, the same value later used for AssignableTo. Testing the kind of the pointer type instead makes the interface exemption unreachable: As panics for interface targets that do not embed error, where errors.As succeeds or returns false",
 	Run: func(c *core.Ctx) {
 		fn := c.P.Func("errutil", "As")
 		if fn == nil {
@@ -2260,7 +2260,7 @@ var perLayerCarried = map[string]string{
 
 var rPerLayer = &Rule{
 	Name: "R-PER-LAYER",
-	Doc: "what the report says about a layer is computed from that layer: in report.BuildSentryReport no string value is carried from one iteration of a loop over the layers to the next - there is no string-typed phi in the header of a loop other than pure separators (phis all of whose incoming values are constants) and the two variables that are carried by design (tabled: leafErrorType, firstDetailLine). A per-layer variable declared outside its loop and assigned only on some paths keeps the value of an earlier layer: e.g. every ordinary wrapper above a renamed type would be listed with that type's family name",
+	Doc:  "what the report says about a layer is computed from that layer: in report.BuildSentryReport no string value is carried from one iteration of a loop over the layers to the next - there is no string-typed phi in the header of a loop other than pure separators (phis all of whose incoming values are constants) and the two variables that are carried by design (tabled: leafErrorType, firstDetailLine). A per-layer variable declared outside its loop and assigned only on some paths keeps the value of an earlier layer: e.g. every ordinary wrapper above a renamed type would be listed with that type's family name",
 	Run: func(c *core.Ctx) {
 		fn := c.P.Func("report", "BuildSentryReport")
 		if fn == nil {
